@@ -55,9 +55,18 @@ def showErr : Err → String
   | .eecerr => "EECERR" | .ebuffull => "EBUFFULL" | .eioerr => "EIOERR"
 
 def T := utf8Table
+def CT : Cmgr := utf8Cmgr T
 
+/-- manager by the name used on the protocol (`utf16L` = utf16.c before the repairs) -/
+def cmOf (name : String) : Option Cmgr :=
+  if name == "utf8" then some CT else if name == "utf16" then some (utf16Cmgr false) else if name == "utf16L" then some (utf16Cmgr true)
+  else if name == "mb8" then some mb8Cmgr else none
+
+/-- flags: i = IGNOREECERR, n = NOAUTOFLUSH, U / M = utf16 / mb8 manager, L = tio.c before its repairs, K = utf16.c before its repairs -/
 def mkCfg (capa : Nat) (flags : String) : Cfg :=
-  { capa := capa, ignoreEcerr := flags.contains 'i', noAutoFlush := flags.contains 'n', legacy := flags.contains 'L' }
+  let legacy := flags.contains 'L'
+  { capa := capa, ignoreEcerr := flags.contains 'i', noAutoFlush := flags.contains 'n', legacy := legacy,
+    cm := if flags.contains 'U' then utf16Cmgr (flags.contains 'K') else if flags.contains 'M' then mb8Cmgr else CT }
 
 def showIn (st : InSt) : String :=
   s!"{st.cur},{st.buf.length},{if st.illseq then "I" else ""}{if st.eof then "E" else ""}:{showBytes (st.buf.drop st.cur)}"
@@ -94,14 +103,30 @@ def parseScript (s : String) : Option (List Reply) :=
       | some (k + 1) => some (Reply.acc k)
       | none => none
 
-/-- write-side calls, `/`-separated: `u:<chars>`, `b:<bytes>`, `F` (flush) -/
-def parseWOps (s : String) : Option (List (Sum (Sum (List Nat) (List UInt8)) Unit)) :=
+/-- write-side calls, `/`-separated: `u:<chars>`, `b:<bytes>`, `s:<bytes>` (null-terminated source), `F` (flush) -/
+def parseWOps (s : String) : Option (List (Sum (Sum (List Nat) (List UInt8 × Bool)) Unit)) :=
   if s == "." then some [] else
   (s.splitOn "/").mapM fun t =>
     if t == "F" then some (.inr ())
     else if t.startsWith "u:" then (parseChars (t.drop 2).toString).map fun ws => .inl (.inl ws)
-    else if t.startsWith "b:" then (parseBytes (t.drop 2).toString).map fun bs => .inl (.inr bs)
+    else if t.startsWith "b:" then (parseBytes (t.drop 2).toString).map fun bs => .inl (.inr (bs, false))
+    else if t.startsWith "s:" then (parseBytes (t.drop 2).toString).map fun bs => .inl (.inr (bs, true))
     else none
+
+def doDupB (cm all bs : String) : String :=
+  match cmOf cm, parseBytes bs with
+  | some cm, some s => match dupBtoU cm (all == "1") s with
+    | .ok (.ok out) => s!"ok len={out.length} out={showChars out}"
+    | .ok .eecerr => "EECERR" | .ok .ebuffull => "EBUFFULL" | .ok (.overflow _) => "FAULT-overflow"
+    | .error f => showFault f
+  | _, _ => "bad-op"
+
+def doDupU (cm cs : String) : String :=
+  match cmOf cm, parseChars cs with
+  | some cm, some cs => match dupUtoB cm (cs.map (· % uchMod)) with
+    | .ok out => s!"ok len={out.length} out={showBytes out}"
+    | .eecerr => "EECERR" | .ebuffull => "EBUFFULL" | .overflow _ => "FAULT-overflow"
+  | _, _ => "bad-op"
 
 def step (_ : Unit) (line : String) : Unit × String :=
   ((), match words line with
@@ -116,18 +141,18 @@ def step (_ : Unit) (line : String) : Unit × String :=
       | .error f => showFault f
     | none => "bad-op"
   | ["upto", wcap, bs] => match wcap.toNat?, parseBytes bs with
-    | some wcap, some s => match convUpto T 0x0A wcap s with
+    | some wcap, some s => match convUpto CT 0x0A wcap s with
       | .ok (x, m, out) => s!"x={x} mlen={m} out={showChars out}"
       | .error f => showFault f
     | _, _ => "bad-op"
   | ["btou", all, wcap, bs] => match wcap.toNat?, parseBytes bs with
-    | some wcap, some s => match convBtoU T (all == "1") wcap s with
+    | some wcap, some s => match convBtoU CT (all == "1") wcap s with
       | .ok (x, m, out) => s!"x={x} mlen={m} out={showChars out}"
       | .error f => showFault f
     | _, _ => "bad-op"
   | ["utob", rem, cs] => match rem.toNat?, parseChars cs with
     | some rem, some cs =>
-      let r := convUtoB T (cs.map (· % uchMod)) rem
+      let r := convUtoB CT (cs.map (· % uchMod)) rem
       s!"x={r.1} ulen={r.2.1} bytes={showBytes r.2.2}"
     | _, _ => "bad-op"
   | ["tior", capa, flags, size, chunks] => match capa.toNat?, size.toNat?, parseChunks chunks with
@@ -139,11 +164,12 @@ def step (_ : Unit) (line : String) : Unit × String :=
     | some capa, some size, some cs =>
       -- what an identity program prints for this input: every character read, encoded again; and the
       -- character count of every line
-      let (chars, e) := readAll (mkCfg capa flags) size { src := cs }
+      let cfg := mkCfg capa flags
+      let (chars, e) := readAll cfg size { src := cs }
       let lens := (chars.splitOn 0x0A).map List.length
       let lens := if chars.getLast? = some 0x0A then lens.dropLast else lens
       let es := match e with | .eof => "eof" | .err x => showErr x | .fault f => showFault f | .stuck => "stuck"
-      s!"out={showBytes (encodeAll T chars)} lens={joinWith "," (lens.map toString)} end={es}"
+      s!"out={showBytes (encodeAllC cfg.cm chars)} lens={joinWith "," (lens.map toString)} end={es}"
     | _, _, _ => "bad-op"
   | ["tiob", capa, size, chunks] => match capa.toNat?, size.toNat?, parseChunks chunks with
     | some capa, some size, some cs =>
@@ -174,11 +200,50 @@ def step (_ : Unit) (line : String) : Unit × String :=
       let (o, tr) := ops.foldl (fun (p : OutSt × List String) op =>
         let (o', ret) : OutSt × String := match op with
           | .inl (.inl ws) => let r := writeUchars cfg (ws.map (· % uchMod)) p.1; (r.1, showWErr r.2)
-          | .inl (.inr bs) => let r := writeBchars cfg bs p.1; (r.1, showWErr r.2)
+          | .inl (.inr (bs, false)) => let r := writeBchars cfg bs p.1; (r.1, showWErr r.2)
+          | .inl (.inr (bs, true)) => let r := writeBcstr cfg bs p.1; (r.1, showWErr r.2)
           | .inr () => let r := flush p.1; (r.1, match r.2 with | some c => s!"n{c}" | none => "EIOERR")
         (o', s!"{ret}|{o'.buf.length}|{showBytes o'.buf}|{o'.ncalls}" :: p.2)) (({ script := sc } : OutSt), [])
       s!"{joinWith " " tr.reverse} sink={showSink o.sink}"
     | _, _, _ => "bad-op"
+  | ["cenc", cm, c, size] => match cmOf cm, parseHex c, size.toNat? with
+    | some cm, some c, some size =>
+      let e := cm.uctobc (c % uchMod) size
+      -- bytes stored beyond `size` (unrepaired utf16 encoder) are shown with a marker
+      s!"ret={e.ret} bytes={match e.bytes with | some b => (if b.length > size then "OOB:" else "") ++ showBytes b | none => "-"}"
+    | _, _, _ => "bad-op"
+  | ["cdec", cm, bs] => match cmOf cm, parseBytes bs with
+    | some cm, some s => match cm.bctouc s with
+      | .ok (n, w) => s!"ret={n} uc={if n ≠ 0 ∧ n ≤ s.length then hexNat w else "-"}"
+      | .error f => showFault f
+    | _, _ => "bad-op"
+  | ["cname", name] => s!"id={match cmgrByName (if name == "-" then "" else name) with | some .utf8 => "utf8" | some .utf16 => "utf16" | some .mb8 => "mb8" | none => "NULL"}"
+  | ["cbtou", cm, wcap, bs] => match cmOf cm, wcap.toNat?, parseBytes bs with
+    | some cm, some wcap, some s => match convBtoU cm false wcap s with
+      | .ok (x, m, out) => s!"x={x} mlen={m} out={showChars out}"
+      | .error f => showFault f
+    | _, _, _ => "bad-op"
+  | ["cutob", cm, rem, cs] => match cmOf cm, rem.toNat?, parseChars cs with
+    | some cm, some rem, some cs =>
+      let r := convUtoB cm (cs.map (· % uchMod)) rem
+      s!"x={r.1} ulen={r.2.1} bytes={showBytes r.2.2}"
+    | _, _, _ => "bad-op"
+  | ["cbtous", cm, wcap, bs] => match cmOf cm, wcap.toNat?, parseBytes bs with
+    | some cm, some wcap, some s => match convBcstrToUcstr cm false wcap s with
+      | .ok (x, m, out, z) => s!"x={x} mlen={m} out={showChars out} nul={if z then 1 else 0}"
+      | .error f => showFault f
+    | _, _, _ => "bad-op"
+  | ["cutobs", cm, rem, cs] => match cmOf cm, rem.toNat?, parseChars cs with
+    | some cm, some rem, some cs =>
+      let r := convUcstrToBcstr cm rem (cs.map (· % uchMod))
+      s!"x={r.1} ulen={r.2.1} bytes={showBytes r.2.2.1} nul={if r.2.2.2 then 1 else 0}"
+    | _, _, _ => "bad-op"
+  | ["dupb", cm, all, bs] => doDupB cm all bs
+  | ["vstr", bs] => doDupB "utf8" "1" bs
+  | ["v2u", cm, bs] => doDupB cm "1" bs
+  | ["dupu", cm, cs] => doDupU cm cs
+  | ["vmbs", cs] => doDupU "utf8" cs
+  | ["v2b", cm, cs] => doDupU cm cs
   | ["prt", script, texts] => match parseScript script, parseChunks texts with
     | some sc, some ts =>
       -- `print T1; print T2; …` on the console of the standard runtime (sio staging buffer 2048, IGNOREECERR, autoflush):
@@ -191,7 +256,7 @@ def step (_ : Unit) (line : String) : Unit × String :=
         match ts with
         | [] => (o, 0)
         | t :: rest =>
-          let cs := match convBtoU T true t.length t with | .ok (_, _, cs) => cs | .error _ => []
+          let cs := match convBtoU CT true t.length t with | .ok (_, _, cs) => cs | .error _ => []
           let r1 := writeUchars cfg cs o
           -- (HAWK_TOLERANT) run.c goes on to write ORS after a failed value write; the print reports the failure
           let r2 := writeUchars cfg [0x0A] r1.1
